@@ -46,6 +46,15 @@ def hostile_scope3():
     return "#[allow(dead_code)] pub trait Colliding: ::core::marker::Sized { %s }\nimpl<T> Colliding for T {}" % " ".join("fn %s(self) {}" % m for m in STD_METHODS)
 
 
+BINDING_NAMES = ["rhs", "src", "value", "iter", "idx", "val", "conv", "other", "source", "fx", "y", "field_0", "field_1", "_0", "_1", "__0", "__1", "__l_0", "__r_0", "f", "fmt", "request"]
+
+
+def hostile_scope4():
+    """Lower-case constants named like the local bindings expansions introduce (function parameters, pattern bindings, field names): an
+    identifier PATTERN that has a constant of its name in scope is a constant pattern, so the binding silently becomes a comparison."""
+    return "\n".join("#[allow(non_upper_case_globals, dead_code)] pub const %s: super::super::Cn = super::super::Cn;" % n for n in BINDING_NAMES)
+
+
 def run(chk, tier):
     thorough = tier == "thorough"
     tab = c01.table()
@@ -68,10 +77,13 @@ def run(chk, tier):
                 uses2 = "#[allow(unused_imports)] use super::super::{H, Tr, Tr2, We}; #[allow(unused_imports)] use ::core::marker::PhantomData;"
                 for scope, body in (("no_prelude", "#[no_implicit_prelude]\npub mod m {\n    %s\n    %s\n}" % (uses, item)),
                                     ("shadowed", "pub mod m {\n    %s\n    %s\n    %s\n}" % (uses2, hostile_scope2(), item)),
-                                    ("colliding_methods", "pub mod m {\n    %s\n    %s\n    %s\n}" % (uses2, hostile_scope3(), item))):
+                                    ("colliding_methods", "pub mod m {\n    %s\n    %s\n    %s\n}" % (uses2, hostile_scope3(), item)),
+                                    ("binding_names_as_constants", "pub mod m {\n    %s\n    %s\n    %s\n}" % (uses2, hostile_scope4(), item))):
+                    if scope == "binding_names_as_constants" and g["name"] != "none":
+                        continue
                     cases.append(Case("c%d" % len(cases), "#[allow(unused_imports)] use super::*;\n" + body, has_run=False,
                                       meta=dict(derive=derive, scope=scope, gen=g["name"], src=item)))
-    chk.part("space", programs=len(cases), derives=len(tab), scopes=["#[no_implicit_prelude] + `use ::derive_more;`", "every prelude type/variant/trait name and std macro shadowed by a local item", "a local blanket trait with by-value methods named like %d std trait methods" % len(STD_METHODS)],
+    chk.part("space", programs=len(cases), derives=len(tab), scopes=["#[no_implicit_prelude] + `use ::derive_more;`", "every prelude type/variant/trait name and std macro shadowed by a local item", "a local blanket trait with by-value methods named like %d std trait methods" % len(STD_METHODS), "lower-case constants named like the bindings of the expansions (known finding)"],
              shadowed_names=len(SHADOW_TYPES) + len(SHADOW_TRAITS) + len(SHADOW_MACROS) + 3, generics=[g["name"] for g in gens])
     eng = CompileEngine("C15", header=c01.HEADER, prelude=c01.PRELUDE, mode="check", per_bin=max(20, len(cases) // 16 + 1))
     results = eng.run_cases(cases)
@@ -86,8 +98,10 @@ def run(chk, tier):
         chk.outcome("%s/%s" % (r.compile, c.meta["scope"]))
         msgs = [re.sub(r"c\d+::m::", "", d["message"]) for d in r.diags]
         names = sorted(set(re.findall(r"`(\w+)`", " ".join(msgs))) & set(SHADOW_TYPES + SHADOW_TRAITS + SHADOW_MACROS + ["Option", "Some", "None", "Ok", "Err", "Result"]))
+        # known finding: every failure in the scope whose only hostility is constants named like bindings belongs to one recorded class
+        kid = "c15-binding-captured-by-caller-constant" if c.meta["scope"] == "binding_names_as_constants" else None
         chk.violation("derive(%s) in %s scope: depends on caller's %s" % (c.meta["derive"], c.meta["scope"], ",".join(names) or msgs[0][:60]), c.meta["src"],
-                      "; ".join(msgs[:4]) + "\n" + r.diags[0]["rendered"][:900])
+                      "; ".join(msgs[:4]) + "\n" + r.diags[0]["rendered"][:900], known_id=kid)
     chk.part("engine", bins_built=eng.bins_built, rounds=eng.rounds, build_s=round(eng.build_s, 1))
     chk.assumptions += ["user-written tokens (field types, bounds, std derives in the scaffolding) are given explicit imports / absolute paths, so every remaining unresolved or mis-resolved name comes from a derive_more expansion",
                         "behavioural identity is implied by identical expansions (the expansion text does not depend on the scope); only compilation is checked here"]
